@@ -150,7 +150,8 @@ def describe(mod, reqif) -> dict:
         vals = []
         if isinstance(dt, reqif.EnumerationDataTypeDefinition):
             vals = [{"uuid": v.uuid, "long_name": v.long_name or "", "description": v.description or ""} for v in dt.values]
-        return {"uuid": dt.uuid, "long_name": dt.long_name or "", "values": vals}
+        return {"uuid": dt.uuid, "long_name": dt.long_name or "", "values": vals,
+                "is_enum": isinstance(dt, reqif.EnumerationDataTypeDefinition)}
 
     def d_def(d):
         if d is None:
@@ -193,6 +194,19 @@ def describe(mod, reqif) -> dict:
             "description": mod.description or "",
             "type": None if mt is None else {"uuid": mt.uuid, "long_name": mt.long_name or ""},
             "reqs": top["reqs"], "folders": top["folders"]}
+
+
+def set_order(mod, exporter) -> list:
+    """The iteration order of the exporter's `set[_AttributeDefinition]` objects in this process — a run-time parameter
+    of the model (Python fixes it by string hashes). Observed by building the same sets again: equal elements inserted in
+    the same order into a fresh set iterate in the same order. The model checks that it is a rearrangement of what it
+    collects itself."""
+    try:
+        rt = exporter._collect_objects(mod)
+    except Exception:  # noqa: BLE001
+        return []
+    return [{"type": k, "defs": [{"def": None if ad.modelobj is None else ad.modelobj.uuid, "kind": ad.type} for ad in ads]}
+            for k, ads in rt.items()]
 
 
 def all_reqs(desc: dict) -> list[dict]:
@@ -250,6 +264,20 @@ def features(desc: dict) -> set[str]:
                         f.add("enum-definition-without-datatype")
             if k == "enum" and len(a["value"]["v"]) > 1:
                 f.add("enum-multi")
+            if a["def"] is not None:
+                dt = a["def"]["data_type"]
+                if k == "enum" and not a["def"]["is_enum"]:
+                    f.add("class-violation:enum-attribute-with-plain-definition")
+                if k != "enum" and a["def"]["is_enum"]:
+                    f.add("enum-definition-on-simple-attribute")
+                if a["def"]["is_enum"] and dt is not None and not dt["is_enum"]:
+                    f.add("class-violation:enum-definition-with-plain-datatype")
+                if not a["def"]["is_enum"] and dt is not None and dt["is_enum"]:
+                    f.add("plain-definition-with-enum-datatype")
+                if k == "enum":
+                    owned = {v["uuid"] for v in (dt["values"] if dt else [])}
+                    if any(v not in owned for v in a["value"]["v"]):
+                        f.add("enum-value-outside-datatype")
         for k in ("chapter_name", "name", "text"):
             if r[k] and convert_xhtml(r[k] if k == "text" else escape(r[k])) is None:
                 f.add("blank-rich-text-field")
@@ -456,6 +484,7 @@ def monitor(mod, data: bytes | None, exc: BaseException | None, feats: set[str])
     if exc is not None:
         cls = ("enum-attribute-without-definition" if isinstance(exc, AssertionError) and "enum-attribute-without-definition" in feats
                else "blank-rich-text-field" if isinstance(exc, etree.ParserError) and "blank-rich-text-field" in feats
+               else "class-violating-link" if isinstance(exc, AttributeError) and any(x.startswith("class-violation:") for x in feats)
                else "enum-definition-without-datatype" if isinstance(exc, AttributeError) and "enum-definition-without-datatype" in feats
                else "plain-text-markup" if isinstance(exc, ValueError) and "markup-in-plain-field" in feats
                else "other")
@@ -473,13 +502,16 @@ def monitor(mod, data: bytes | None, exc: BaseException | None, feats: set[str])
     for i, els in ids.items():
         if len(els) > 1:
             tags = sorted({_loc(e.tag).rsplit("-", 1)[0] if _loc(e.tag).startswith(("ATTRIBUTE-DEFINITION", "DATATYPE-DEFINITION")) else _loc(e.tag) for e in els})
-            bad.append((f"to_reqif|duplicate-id|{'+'.join(tags)}", f"IDENTIFIER {i!r} occurs {len(els)} times"))
+            cls = "|enum-definition-on-simple-attribute" if tags == ["ENUM-VALUE"] and "enum-definition-on-simple-attribute" in feats else ""
+            bad.append((f"to_reqif|duplicate-id|{'+'.join(tags)}{cls}", f"IDENTIFIER {i!r} occurs {len(els)} times"))
     for e in root.iter():
         if isinstance(e.tag, str) and e.tag.endswith("-REF") and (e.text or "") not in ids:
             t = _loc(e.tag)
             cls = "ATTRIBUTE-DEFINITION-REF" if t.startswith("ATTRIBUTE-DEFINITION") else "DATATYPE-DEFINITION-REF" if t.startswith("DATATYPE") else t
             if cls == "ATTRIBUTE-DEFINITION-REF" and (e.text or "").startswith(("NULL", "_NULL")):
                 cls += "|definition-less-attribute"
+            if cls == "ENUM-VALUE-REF" and "enum-value-outside-datatype" in feats:
+                cls += "|value-outside-datatype"
             bad.append((f"to_reqif|dangling-ref|{cls}", f"<{t}>{e.text}</> has no element with that IDENTIFIER"))
     # coverage and order
     want = raw_dfs(mod._element)
@@ -1000,6 +1032,17 @@ def evaluate(env: Env, mod, case: dict, out: Outcome, pending: list) -> list[tup
     else:
         impl = {"err": err_name(exc)}
     xt = xhtml_table(desc)
+    desc = dict(desc, set_order=set_order(mod, env.exporter))
+    seen: dict = {}
+    for r in all_reqs(desc):
+        row = seen.setdefault(r["type"]["uuid"] if r["type"] else None, [])
+        for a in r["attrs"]:
+            k = (a["def"]["uuid"] if a["def"] else None, {"bool": "BOOLEAN", "int": "INTEGER", "enum": "ENUMERATION"}.get(a["value"]["k"], a["value"]["k"].upper()))
+            if k not in row:
+                row.append(k)
+    obs = {o["type"]: [(d["def"], d["kind"]) for d in o["defs"]] for o in desc["set_order"]}
+    if any(len(v) > 1 for v in obs.values()):
+        out.hit("set-order:" + ("first-seen" if all(obs.get(k) == v for k, v in seen.items()) else "rearranged"))
     pending.append(({"op": "export", "module": desc, "xhtml": xt}, impl, case))
     # whole-tree stream: same module, plus the header inputs
     if exc is None:
@@ -1284,12 +1327,10 @@ def compare_tree(env: "Env", out: Outcome, case: dict, impl: dict, mv: dict) -> 
         if ids != mv["idents"] or refs != mv["refs"]:
             out.disagree("tree-scan", {k: v for k, v in case.items()}, _first_diff({"idents": ids, "refs": refs}, {"idents": mv["idents"], "refs": mv["refs"]}),
                          "Lean scan of the model tree differs from the harness scan of the same tree (path, harness, Lean)")
-        mv = {"tree": sort_set_ordered(mt, env.n_so)}
+        mv = {"tree": mt}  # no sorting: the set order is an input of the model
         out.hit("tree:ok")
     else:
         out.hit("tree:" + str(mv.get("err", "driver-error")))
-    if "tree" in impl and "unparsable" not in impl["tree"]:
-        impl = {"tree": sort_set_ordered(impl["tree"], env.n_so)}
     if mv != impl:
         out.disagree("tree", {k: v for k, v in case.items()}, _first_diff(impl, mv), "see impl field (first difference: path, impl, model)")
 
